@@ -10,7 +10,7 @@ import wq_extract  # noqa: E402
 
 def pre(repo):
     """translator step (facts no trace shows): 64-bit counters everywhere, unbounded wait loop"""
-    wq_extract.check(repo)
+    return wq_extract.check(repo)
 
 
 # ------------------------------------------------------------------ C17 work queue
